@@ -173,6 +173,9 @@ def run(ctx: Ctx):
     for text, widths, rws in progs.loop_family():
         m = progs.parse(text)
         collect(ctx, m, widths, [[serialize.limbs(v, 16)] for v in (0, 5, 65535)], rws, {"op": "program", "text": text}, cases, metas)
+    for text, widths, rws in progs.recursion_family():
+        m = progs.parse(text)
+        collect(ctx, m, widths, [[serialize.limbs(v, 16)] for v in (0, 1, 2, 3, 4, 5)], rws, {"op": "program", "text": text}, cases, metas)
     for text, widths, rws in progs.carried_family():
         m = progs.parse(text)
         collect(ctx, m, widths, [[serialize.limbs(v, 16) for v in vs[:len(widths)]] for vs in ((1, 2, 3), (65535, 0, 7))], rws, {"op": "program", "text": text}, cases, metas)
